@@ -3,6 +3,7 @@ import Qryn.Proofs.ReadPipe
 import Qryn.Proofs.ReadPipeH
 import Qryn.Proofs.ReadPipeHExec
 import Qryn.Proofs.ReadCensus
+import Qryn.Proofs.ReadCensusTyped
 /-! # C12 — no query can crash, hang or leak work on the read side   (PARTIAL: bookkeeping proved, runtime explored)
 
 Property theorems only. Models: `Qryn.ReadSide` (Params.lean: controllers' parameter handling, `FixPeriodPlanner`,
@@ -58,7 +59,6 @@ def detachedModelled : List String :=
    "service/queryRangeService.go:QueryRangeService.QueryRange#2",
    "service/queryRangeService.go:QueryRangeService.QueryInstant#1",
    "service/queryRangeService.go:QueryRangeService.QueryInstant#2",
-   "service/queryRangeService.go:QueryRangeService.Tail#1",
    "service/queryRangeService.go:QueryRangeService.Tail#2",
    "service/tempoService.go:TempoService.Tags#1",
    "service/tempoService.go:TempoService.TagsV2#1",
@@ -74,12 +74,14 @@ def detachedModelled : List String :=
 
 /-- **goroutine_inventory.** The set of un-recovered goroutines in the source is exactly the set analysed: a new
     `go` statement, or a recover that was removed (or turned back into the nested form that never recovers), changes
-    the regenerated list and breaks this theorem. In particular the pipeline stages (`WrapProcess#1`) and the span
-    decoder (`OutputQuery#1`) do recover. -/
+    the regenerated list and breaks this theorem. In particular the pipeline stages (`WrapProcess#1`), the span
+    decoder (`OutputQuery#1`) and — since fix 767eed7 — the websocket tail's service goroutine (`Tail#1`, which runs the
+    planner chain once per tick) do recover. -/
 theorem goroutine_inventory :
     ((ReadSide.goroutines.filter (fun g => !g.2.2 && g.2.1 != "drain" && g.2.1 != "close")).map (·.1) = detachedModelled) ∧
     (("logql/logql_transpiler_v2/internal_planner/planner_generic.go:GenericPlanner.WrapProcess#1", "lit", true) ∈ ReadSide.goroutines) ∧
-    (("service/tempoService.go:TempoService.OutputQuery#1", "lit", true) ∈ ReadSide.goroutines) := by decide
+    (("service/tempoService.go:TempoService.OutputQuery#1", "lit", true) ∈ ReadSide.goroutines) ∧
+    (("service/queryRangeService.go:QueryRangeService.Tail#1", "lit", true) ∈ ReadSide.goroutines) := by decide
 
 /-- stops reading only when `strconv.ParseInt` fails on a string its producer formatted with `%d` -/
 def unreachableEarlyReturn : List String :=
@@ -110,6 +112,44 @@ open Qryn.ReadSide.Census in
 theorem fault_site_census :
     censusMatches unrecovered reviewed = true ∧
     ReadGoroutines.externsUnion = reviewedExterns.map (·.1) := ⟨census_checked, externs_checked⟩
+
+open Qryn.ReadSide.Census in
+/-- **fault_site_census_typed.** The same on go/types + SSA + a CHA call graph (`Gen.ReadGoroutines`, typed part). For every
+    goroutine whose stack starts under reader/ — the 34 `go` statements AND the handler goroutines net/http starts
+    (every function of the `http.HandlerFunc` signature that is used as a value: registered handlers, middleware
+    closures) — the translator computes the qryn functions that run on that stack outside every DIRECT deferred recover
+    (static calls, deferred calls, interface calls resolved to the qryn types that implement the interface, function
+    values resolved by signature, closures handed to library functions; a function whose deferred callee itself calls
+    `recover()` covers what its defer statement dominates, callees included) and, in each, every SSA instruction that
+    can panic and is not discharged by a dominating guard: index / slice bounds, integer division, shift count, write to
+    a map not known to be made, type assertion without comma-ok, explicit panic, send, close, `make` by a non-length size,
+    slice→array conversion, dereference of / call through a value that comes from a map lookup or a nil-able qryn
+    result. The theorem says
+    * the regenerated functions with their sites are EXACTLY the reviewed table (`reviewedTyped`: same functions, same
+      sites in the same order, each with its `Why`; cited guards and sole-close facts are the regenerated ones);
+    * the roots — which goroutines exist, which recover, which are expanded — are exactly the reviewed ones;
+    * no goroutine the code starts itself is left unexpanded, and the only unexpanded handler goroutine is the reviewed
+      websocket tail handler (with exactly the reviewed direct callees);
+    * the calls that leave the module on those stacks are exactly the reviewed library names.
+    A new goroutine without a recover that reaches a slice index two calls deep, a recover removed or moved below the
+    first faulting statement, a new interface implementation reachable from an exporter, a new library call — each
+    changes a regenerated table and breaks this theorem until the site is reviewed. -/
+theorem fault_site_census_typed :
+    typedMatches ReadGoroutines.typedFunctions reviewedTyped = true ∧
+    rootHeads ReadGoroutines.typedRoots = reviewedRoots ∧
+    wideRootsReviewed ReadGoroutines.typedRoots = true ∧
+    goRootsExpanded ReadGoroutines.typedRoots = true ∧
+    ReadGoroutines.typedExternsUnion = reviewedTypedExterns.map (·.1) :=
+  ⟨typed_census_checked, typed_roots_checked, typed_roots_covered.1, typed_roots_covered.2, typed_externs_checked⟩
+
+open Qryn.ReadSide.Census in
+/-- the un-recovered goroutines of `goroutine_inventory` are un-recovered `go` roots of the typed census too, and the
+    typed census knows of exactly 11 more un-recovered `go` roots: the two drainers `WrapProcess#2/#3`, the
+    three `close` one-liners of the tag/value processors, the Tail handler's two websocket helpers and the process-lifetime
+    goroutines (log shipper ×2, version-cache sleeper, watchdog) — all in the reviewed table -/
+theorem typed_roots_cover_inventory :
+    (∀ n ∈ detachedModelled, n ∈ typedDetached ReadGoroutines.typedRoots) ∧
+    (typedDetached ReadGoroutines.typedRoots).length = detachedModelled.length + 11 := by decide +kernel
 
 open Qryn.ReadSide.Census in
 /-- the un-recovered goroutines of the older, narrower inventory (`goroutine_inventory`) are among those of the census -/
@@ -144,6 +184,35 @@ theorem handler_loops_read_to_close :
     ∀ l ∈ ReadGoroutines.handlerLoops,
       l.2.2.2.1 = true ∨ (l.2.2.1 = false ∧ ∀ c ∈ l.2.2.2.2.2, c ∈ harmlessLoopCalls) := by decide
 
+/-- what a handler's receive loop may reach, typed: the two response-writer wrappers of the middleware (gzip, status
+    code capture) -/
+def loopCallees : List String :=
+  ["(*reader/utils/middleware.gzipResponseWriter).Write", "(*reader/utils/middleware.responseWriterWithCode).Write"]
+
+/-- … and the library calls made from there -/
+def loopExterns : List String :=
+  ["(*compress/gzip.Writer).Write", "(net/http.Header).Set", "invoke net/http.ResponseWriter.Header",
+   "invoke net/http.ResponseWriter.Write", "encoding/json.Marshal", "fmt.Println"]
+
+/-- **handler_loops_no_fault_in_reach** (typed; closes the gap of `handler_loops_read_to_close`, which could not see
+    inside the callees of a loop body). For every loop of reader/controller that receives from a channel (natural loops
+    of the SSA control-flow graph; `for x := range ch` and `for { select { case x := <-ch … } }`): either the function
+    leaves a drain behind (a deferred function — or a goroutine it starts — that itself receives in a loop), or
+    * the loop has no exit other than "the channel is closed" (no return, break, goto, panic), AND
+    * no instruction INSIDE the loop can panic (after discharge by dominating guards), AND
+    * every qryn function reachable from a call inside the loop — transitively, through interface calls and function
+      values — is one of the two response-writer wrappers, none of which has a panic site, AND
+    * the library calls made from the loop and from those functions are the response writer, gzip, `json.Marshal`,
+      `fmt.Println`.
+    So no statement and no recovered panic takes a handler out of its loop before the producer has closed the channel,
+    two calls deep included. (The Tempo trace handler renders stored spans in its loop — index sites in
+    `SpanToJSONSpan`, dereferences of received values — and is in the first class: it defers a drain.) -/
+theorem handler_loops_no_fault_in_reach :
+    ∀ l ∈ ReadGoroutines.typedHandlerLoops,
+      l.2.2.2.1 = true ∨
+      (l.2.2.1 = false ∧ l.2.2.2.2.1 = [] ∧ l.2.2.2.2.2.2.1 = [] ∧
+       (∀ c ∈ l.2.2.2.2.2.1, c ∈ loopCallees) ∧ (∀ e ∈ l.2.2.2.2.2.2.2, e ∈ loopExterns)) := by decide +kernel
+
 /-- handlers that answer without touching the database or speak another protocol (websocket tail) -/
 def staticHandlers : List String :=
   ["MiscController.Ready", "MiscController.Config", "MiscController.Rules", "MiscController.Metadata",
@@ -152,6 +221,24 @@ def staticHandlers : List String :=
 /-- **handlers_recover.** Every HTTP handler of the read side that runs a query starts with
     `defer tamePanic(w, r)`: a fault in the handler goroutine becomes a 500, never a dropped connection. -/
 theorem handlers_recover : ∀ h ∈ ReadSide.handlers, h.2 = true ∨ h.1 ∈ staticHandlers := by decide
+
+/-- handler goroutines without a recover of their own, typed: the middleware closures (they run BEFORE the controller's
+    `defer tamePanic`; their sites are in the reviewed table), the two static Prometheus stubs, the echo endpoint and the
+    websocket tail -/
+def unrecoveredHandlerRoots : List String :=
+  ["controller/miscController.go:MiscController.Metadata", "controller/miscController.go:MiscController.Buildinfo",
+   "controller/queryRangeController.go:QueryRangeController.Tail", "controller/tempoController.go:TempoController.Echo",
+   "utils/middleware/accept_encoding.go:reader/utils/middleware.AcceptEncodingMiddleware$1",
+   "utils/middleware/basic_auth.go:reader/utils/middleware.BasicAuthMiddleware$1$1",
+   "utils/middleware/cors_middleware.go:reader/utils/middleware.CorsMiddleware$1$1",
+   "utils/middleware/logging.go:reader/utils/middleware.LoggingMiddleware$1$1"]
+
+/-- **handlers_recover_typed.** Of the functions of the `http.HandlerFunc` signature under reader/ that are used as values
+    (what net/http can run on a connection goroutine), every one has a direct deferred recover in its entry function —
+    and, by `fault_site_census_typed`, no fault site before it — except the listed ones. (The syntactic
+    `handlers_recover` lists four more: `Ready`, `Config`, `Rules`, `NotImplemented` are never registered.) -/
+theorem handlers_recover_typed :
+    ∀ r ∈ ReadGoroutines.typedRoots, r.2.1 = "handler" → r.2.2.1 = true ∨ r.1 ∈ unrecoveredHandlerRoots := by decide +kernel
 
 /-! ## the detached goroutines cannot fault -/
 
